@@ -145,7 +145,33 @@ def inline_call(caller, bidx, callee, all_fns=None):
             blk["stmts"].append({"k": "assign", "place": {"l": lmap(i + 1), "p": []}, "rv": {"k": "use", "op": a}, "line": line, "exp": False, "inlined": "from " + callee["path"] + " (canon)"})
     target = t.get("target")
     dest = t.get("dest")
+    # the helper's type parameters stand for the generic arguments of this call (theta_value::<Self::T1>: E := Self::T1) in the types
+    # and callees of the inlined copy
+    gsub = []
+    gn, ga = callee.get("generics") or [], (t.get("callee") or {}).get("args") or []
+    if gn and len(gn) == len(ga):
+        gsub = [(n_, a_) for n_, a_ in zip(gn, ga) if n_ != a_ and re.match(r"^[A-Za-z_]\w*$", n_) and not n_.startswith("'")]
+    TYPE_KEYS = ("args", "full", "self_ty", "resolved_full", "ty", "dest_ty", "indirect_ty", "lty", "rty")
+    def sub_str(x):
+        for n_, a_ in gsub:
+            x = re.sub(r"(?<![\w:'])" + re.escape(n_) + r"(?![\w:])", lambda m_: a_, x)
+        return x
+    def gen_subst(obj, in_type=False):
+        """type-bearing strings only: item paths (`Theta::<E>::from_spectrum_unchecked`) name declarations and stay as they are"""
+        if not gsub:
+            return obj
+        if isinstance(obj, str):
+            return sub_str(obj) if in_type else obj
+        if isinstance(obj, list):
+            return [gen_subst(v, in_type) for v in obj]
+        if isinstance(obj, dict):
+            return {k: gen_subst(v, in_type or (k in TYPE_KEYS and not (k == "args" and v and isinstance(v[0], dict)))) for k, v in obj.items()}
+        return obj
+    if gsub:
+        for i_ in range(loff, len(caller["locals"])):
+            caller["locals"][i_] = gen_subst(caller["locals"][i_])
     for cb in callee["blocks"]:
+        cb = gen_subst(cb) if gsub else cb
         nb = {"cleanup": cb.get("cleanup", False), "stmts": [_remap(s, lmap, bmap, pmap) for s in cb["stmts"]], "term": None}
         ct = cb["term"]
         if ct["k"] == "return":
